@@ -42,7 +42,9 @@ func (k Keeper) HandleTimeoutOrder(ctx sdk.Context, orderId uint64) {
 			timeoutShards = append(timeoutShards, shard)
 			timeoutCount++
 		}
-		if shard.Status == ordertypes.ShardCompleted {
+		// a migrating shard belongs to a hand-over in progress (the renewals of the order list it
+		// too), not to the unfinished part of this order: an examination leaves it alone
+		if shard.Status == ordertypes.ShardCompleted || shard.Status == ordertypes.ShardMigrating {
 			completedShards = append(completedShards, id)
 		} else {
 			uncompletedShards = append(uncompletedShards, id)
